@@ -11,48 +11,53 @@ func init() { register("C08", "exploration", runC08) }
 
 func checkC08(r *core.Run) func(c alnCase) core.Outcome {
 	return func(c alnCase) core.Outcome {
-		m := matrixByName(c.Matrix)
-		rm := toRefMat(m)
-		a, b := c.A.B(), c.B.B()
-		res, changed := runAlign(c, m)
-		if res.panicS != "" {
-			return core.Failf("%s(%q,%q,%s) panicked: %s", c.Fn, a, b, c.Matrix, res.panicS)
-		}
-		if changed {
-			return core.Failf("%s(%q,%q,%s) modified its inputs", c.Fn, a, b, c.Matrix)
-		}
-		if c.Fn == "Global" {
-			sc, na, nb, ok := ref.Rescore(a, b, 0, 0, res.steps, rm)
-			if !ok || na != len(a) || nb != len(b) {
-				return core.Failf("Global(%q,%q,%s): steps %v do not consume exactly a and b (consumed %d of %d, %d of %d, valid=%v)", a, b, c.Matrix, res.steps, na, len(a), nb, len(b), ok)
-			}
-			if sc != res.score {
-				return core.Failf("Global(%q,%q,%s): returned score %v but the returned steps %v score %v", a, b, c.Matrix, res.score, res.steps, sc)
-			}
-			return core.Outcome{Class: fmt.Sprint("global steps=", min(len(res.steps), 3)), Nontrivial: len(a) > 0 && len(b) > 0}
-		}
-		opt := ref.GotohLocal(a, b, rm)
-		if opt == 0 {
-			if len(res.steps) != 0 || res.score != 0 {
-				return core.Failf("Local(%q,%q,%s): no positive-scoring local alignment exists but got steps %v score %v", a, b, c.Matrix, res.steps, res.score)
-			}
-			return core.Outcome{Class: "local none", Nontrivial: len(a) > 0 && len(b) > 0}
-		}
-		if len(res.steps) == 0 {
-			if res.score != 0 {
-				return core.Failf("Local(%q,%q,%s): no steps but score %v", a, b, c.Matrix, res.score)
-			}
-			return core.Outcome{Class: "local none-but-positive-exists", Nontrivial: true} // optimality is C09/C10's business
-		}
-		sc, _, _, ok := ref.Rescore(a, b, res.ai, res.bi, res.steps, rm)
-		if !ok {
-			return core.Failf("Local(%q,%q,%s): steps %v from offsets (%d,%d) leave the sequences", a, b, c.Matrix, res.steps, res.ai, res.bi)
+		res, changed := runAlign(c, matrixByName(c.Matrix))
+		return judgeC08(c, res, changed)
+	}
+}
+
+// judgeC08 judges the result of one finished call against the matrix NAMED in the case (the
+// reference values), whatever map object the call was actually given.
+func judgeC08(c alnCase, res alnResult, changed bool) core.Outcome {
+	rm := toRefMat(matrixByName(c.Matrix))
+	a, b := c.A.B(), c.B.B()
+	if res.panicS != "" {
+		return core.Failf("%s(%q,%q,%s) panicked: %s", c.Fn, a, b, c.Matrix, res.panicS)
+	}
+	if changed {
+		return core.Failf("%s(%q,%q,%s) modified its inputs", c.Fn, a, b, c.Matrix)
+	}
+	if c.Fn == "Global" {
+		sc, na, nb, ok := ref.Rescore(a, b, 0, 0, res.steps, rm)
+		if !ok || na != len(a) || nb != len(b) {
+			return core.Failf("Global(%q,%q,%s): steps %v do not consume exactly a and b (consumed %d of %d, %d of %d, valid=%v)", a, b, c.Matrix, res.steps, na, len(a), nb, len(b), ok)
 		}
 		if sc != res.score {
-			return core.Failf("Local(%q,%q,%s): returned score %v but steps %v from (%d,%d) score %v", a, b, c.Matrix, res.score, res.steps, res.ai, res.bi, sc)
+			return core.Failf("Global(%q,%q,%s): returned score %v but the returned steps %v score %v", a, b, c.Matrix, res.score, res.steps, sc)
 		}
-		return core.Outcome{Class: "local found", Nontrivial: true}
+		return core.Outcome{Class: fmt.Sprint("global steps=", min(len(res.steps), 3)), Nontrivial: len(a) > 0 && len(b) > 0}
 	}
+	opt := ref.GotohLocal(a, b, rm)
+	if opt == 0 {
+		if len(res.steps) != 0 || res.score != 0 {
+			return core.Failf("Local(%q,%q,%s): no positive-scoring local alignment exists but got steps %v score %v", a, b, c.Matrix, res.steps, res.score)
+		}
+		return core.Outcome{Class: "local none", Nontrivial: len(a) > 0 && len(b) > 0}
+	}
+	if len(res.steps) == 0 {
+		if res.score != 0 {
+			return core.Failf("Local(%q,%q,%s): no steps but score %v", a, b, c.Matrix, res.score)
+		}
+		return core.Outcome{Class: "local none-but-positive-exists", Nontrivial: true} // optimality is C09/C10's business
+	}
+	sc, _, _, ok := ref.Rescore(a, b, res.ai, res.bi, res.steps, rm)
+	if !ok {
+		return core.Failf("Local(%q,%q,%s): steps %v from offsets (%d,%d) leave the sequences", a, b, c.Matrix, res.steps, res.ai, res.bi)
+	}
+	if sc != res.score {
+		return core.Failf("Local(%q,%q,%s): returned score %v but steps %v from (%d,%d) score %v", a, b, c.Matrix, res.score, res.steps, res.ai, res.bi, sc)
+	}
+	return core.Outcome{Class: "local found", Nontrivial: true}
 }
 
 func genAlign(r *core.Run, which string, sigma string, L int, fns []string) func(emit func(alnCase) bool) {
@@ -103,8 +108,9 @@ func runC08(r *core.Run) {
 	} else {
 		core.Clause(r, "family-ABC", core.Opts{Rule: rule}, genAlign(r, "all", "ABC", 3, bothFns), checkC08(r))
 	}
-	single := checkC08(r)
-	alignHistories(r, []string{"sym:1:-1:-1:0", "sym:3:-3:-1:-2", "sym:2:-3:0:-1", "asym:0:-1"}, func(c alnCase, _ alnResult, _ bool) core.Outcome { return single(c) })
+	alignHistories(r, []string{"sym:1:-1:-1:0", "sym:3:-3:-1:-2", "sym:2:-3:0:-1", "asym:0:-1"}, judgeC08)
+	matrixMutationHistories(r, false, judgeC08)
+	matrixMutationHistories2(r)
 	core.Clause(r, "shipped", core.Opts{Rule: "every pair over {A,R,W,X} with each shipped PAM/BLOSUM matrix and over {a,b,0x00,0xFE} with Levenshtein; non-trivial = both non-empty"},
 		genShipped(core.Pick(r, 3, 4), bothFns), checkC08(r))
 }
